@@ -14,6 +14,7 @@ def armingsFrom (c : Cfg) : Nat → List Op → List Pend
   | k, .expire _ _ :: ops => armingsFrom c k ops
   | k, .cancel :: ops => armingsFrom c k ops
   | k, .reap _ :: ops => armingsFrom c k ops
+  | k, .register _ :: ops => armingsFrom c k ops
 
 def armings (c : Cfg) (ops : List Op) : List Pend := armingsFrom c 0 ops
 
@@ -24,6 +25,16 @@ def armRounds : List Op → List Nat
   | .expire _ _ :: ops => armRounds ops
   | .cancel :: ops => armRounds ops
   | .reap _ :: ops => armRounds ops
+  | .register _ :: ops => armRounds ops
+
+/-- the callback in force after an op list: the argument of the last `OnTimeout` call, else the one it started with -/
+def handlerAfter : Option Nat → List Op → Option Nat
+  | k, [] => k
+  | _, .register k' :: ops => handlerAfter k' ops
+  | k, .arm _ _ _ :: ops => handlerAfter k ops
+  | k, .expire _ _ :: ops => handlerAfter k ops
+  | k, .cancel :: ops => handlerAfter k ops
+  | k, .reap _ :: ops => handlerAfter k ops
 
 /-- the property's quantifier: the timer is armed for strictly increasing rounds -/
 def IncreasingArms (ops : List Op) : Prop := (armRounds ops).Pairwise (· < ·)
@@ -64,6 +75,7 @@ theorem armingsFrom_ids (c : Cfg) (k : Nat) (ops : List Op) :
     | expire _ _ => exact ih k p hp
     | cancel => exact ih k p hp
     | reap _ => exact ih k p hp
+    | register _ => exact ih k p hp
 
 theorem IncreasingArms.left {a b : List Op} (h : IncreasingArms (a ++ b)) : IncreasingArms a := by
   unfold IncreasingArms at *
@@ -110,6 +122,7 @@ theorem step_log (c : Cfg) (s : State) (op : Op) :
   | reap id =>
     simp only [step, armingsFrom]
     split <;> simp
+  | register k => simp [step, armingsFrom]
 
 /-- the ghost log of the model is exactly the model-independent list of armings -/
 theorem run_log (c : Cfg) (s : State) (ops : List Op) :
@@ -131,6 +144,27 @@ theorem run_log (c : Cfg) (s : State) (ops : List Op) :
 theorem run_init_log (c : Cfg) (ops : List Op) : (run c init ops).1.log = armings c ops := by
   have := (run_log c init ops).1
   simpa [init, armings] using this
+
+/-- `t.done` after a run is the argument of the last `OnTimeout` call -/
+theorem run_handler (c : Cfg) (s : State) (ops : List Op) :
+    (run c s ops).1.handler = handlerAfter s.handler ops := by
+  induction ops generalizing s with
+  | nil => rfl
+  | cons x xs ih =>
+    simp only [run]
+    rw [ih]
+    cases x with
+    | arm h r now => simp [step, handlerAfter]
+    | expire id now =>
+      simp only [step, handlerAfter]
+      split
+      · rfl
+      · split <;> rfl
+    | cancel => simp [step, handlerAfter]
+    | reap id =>
+      simp only [step, handlerAfter]
+      split <;> rfl
+    | register k => simp [step, handlerAfter]
 
 /-! ## invariants -/
 
@@ -210,6 +244,9 @@ theorem inv_step (c : Cfg) (s : State) (op : Op) (hi : Inv s) : Inv (step c s op
       · intro p hp
         exact hi.pend_lt p (List.mem_filter.mp hp).1
     · exact hi
+  | register k =>
+    simp only [step]
+    exact ⟨hi.pend_log, hi.armed_last, hi.pend_ids, hi.pend_lt⟩
 
 theorem inv_run (c : Cfg) (s : State) (ops : List Op) (hi : Inv s) : Inv (run c s ops).1 := by
   induction ops generalizing s with
@@ -220,12 +257,13 @@ theorem inv_run (c : Cfg) (s : State) (ops : List Op) (hi : Inv s) : Inv (run c 
 
 /-- anatomy of one firing step -/
 theorem step_fire (c : Cfg) (s : State) (op : Op) (f : Fire) (hf : (step c s op).2 = some f) :
-    ∃ id now p, op = .expire id now ∧ p ∈ s.pending ∧ p.id = id ∧ p.deadline ≤ now ∧ s.armed = p.round ∧
-      f = { id := p.id, round := p.round, time := now } ∧
+    ∃ id now p k, op = .expire id now ∧ p ∈ s.pending ∧ p.id = id ∧ p.deadline ≤ now ∧ s.armed = p.round ∧
+      s.handler = some k ∧ f = { id := p.id, round := p.round, time := now, handler := k } ∧
       (step c s op).1.pending = s.pending.filter (fun q => q.id != id) := by
   cases op with
   | arm h r now => simp [step] at hf
   | cancel => simp [step] at hf
+  | register k => simp [step] at hf
   | reap id => simp only [step] at hf; split at hf <;> simp at hf
   | expire id now =>
     simp only [step] at hf ⊢
@@ -237,10 +275,13 @@ theorem step_fire (c : Cfg) (s : State) (op : Op) (f : Fire) (hf : (step c s op)
       · rename_i hnl
         split at hf
         · rename_i harm
-          refine ⟨id, now, p, rfl, List.mem_of_find?_eq_some hfind, ?_, by omega, harm, ?_, ?_⟩
-          · have := List.find?_some hfind; simpa using this
-          · simpa using hf.symm
-          · simp [hnl]
+          split at hf
+          · rename_i k hk
+            refine ⟨id, now, p, k, rfl, List.mem_of_find?_eq_some hfind, ?_, by omega, harm, hk, ?_, ?_⟩
+            · have := List.find?_some hfind; simpa using this
+            · simpa using hf.symm
+            · simp [hnl]
+          · simp at hf
         · simp at hf
 
 /-- every callback of a run comes from one `expire` step at some position of the op list -/
@@ -296,6 +337,10 @@ theorem run_fires_ids (c : Cfg) (s : State) (ops : List Op)
         exact Or.inr (by omega)
     | cancel =>
       obtain ⟨h1, h2⟩ := ih (step c s .cancel).1 (by simpa [step] using hnd) (by simpa [step] using hlt)
+      simp only [run]
+      exact ⟨by simpa [step] using h1, fun f hf => by simpa [step] using h2 f (by simpa [step] using hf)⟩
+    | register k =>
+      obtain ⟨h1, h2⟩ := ih (step c s (.register k)).1 (by simpa [step] using hnd) (by simpa [step] using hlt)
       simp only [run]
       exact ⟨by simpa [step] using h1, fun f hf => by simpa [step] using h2 f (by simpa [step] using hf)⟩
     | reap id =>
@@ -357,7 +402,7 @@ theorem run_fires_ids (c : Cfg) (s : State) (ops : List Op)
         simp only [Option.toList_none, List.nil_append]
         exact ⟨h1, h2'⟩
       | some f0 =>
-        obtain ⟨id', now', p, hop, hp, hpid, _, _, hf0, hpend⟩ := step_fire c s _ f0 hfo
+        obtain ⟨id', now', p, k0, hop, hp, hpid, _, _, _, hf0, hpend⟩ := step_fire c s _ f0 hfo
         cases hop
         simp only [Option.toList_some, List.singleton_append, List.map_cons, List.nodup_cons, List.mem_cons]
         refine ⟨⟨?_, h1⟩, ?_⟩
